@@ -183,6 +183,34 @@ def rejected_applicant_probe(r, ops, tags):
         reserved_probe(r, ops, tags, T=T, callers=["u0", first, r.choice(["ca1", "ca2"]), first, second])
 
 
+def prefixed_chain_probe(r, ops, tags):
+    """two appchains whose ids are one a prefix of the other up to a colon (`c5` and `c5:x`, ids are free text), each with its own
+    admin; the second registers a service (`c5:x:s1`).  Operations on that service reserved to its chain's admin are then called by an
+    outsider, by the admin of the prefix chain, by another chain's admin and by the owner"""
+    P = "c%d" % r.randint(5, 7)
+    Q = P + ":x"
+    pa, qa = r.sample(["ca5", "ca6", "ca7"], 2)
+    ops.append(f"block xfer adm0 {pa} 100000000000 | xfer adm0 {qa} 100000000000")
+    for chain, who in ((P, pa), (Q, qa)):
+        ops.append(f"block bvm {who} appchain RegisterAppchain s:{chain} s:name-{chain.replace(':', '')} x: s:ETH x: s:0xbroker s:desc s:{HAPPY_RULE} s:url s:@{who} s:reason")
+        for v in ("adm0", "adm1", "adm2"):
+            ops.append(f"block bvm {v} gov Vote s:@{who}-0 s:approve s:r")
+        ops.append(f"q obj appchain {chain}")
+        tags.add(f"owner:{chain}={who}")
+    ops.append(f"block bvm {qa} service RegisterService s:{Q} s:s1 s:svc-{Q.replace(':', '')}-s1 s:CallContract s:intro u:1 s:~ s:details s:reason")
+    for v in ("adm0", "adm1", "adm2"):
+        ops.append(f"block bvm {v} gov Vote s:@{qa}-1 s:approve s:r")
+    ops.append(f"q obj service {Q}:s1")
+    call = r.choice(["LogoutService", "LogoutService", "FreezeService"])
+    callers = ["u0", pa, r.choice(["ca1", "ca2"])] + ([qa] if call == "LogoutService" else ["adm1"])
+    for who in callers:
+        ops.append("q dump")
+        ops.append(f"block bvm {who} service {call} s:{Q}:s1 s:reason")
+        ops.append("q dump")
+        ops.append(f"q obj service {Q}:s1")
+    tags.add("prefixed-chain-scenario:" + call)
+
+
 def respelled_booked_account_probe(r, ops, tags):
     """an outsider applies for a new appchain and names, next to itself, an account that is already the admin of chain c1 —
     spelled in lower case, not in the checksummed spelling the node uses; then takes the application back (or has it rejected /
@@ -341,6 +369,8 @@ def gen_c17(rng, n, tier):
             former_admin_probe(r, ops, tags)
         elif k1 < 0.84:
             respelled_booked_account_probe(r, ops, tags)
+        elif k1 < 0.92:
+            prefixed_chain_probe(r, ops, tags)
         ops += ["q ic c1:s1", "q ic c2:s1", "q status 1356:c1:s1-1356:c2:s1-1", "q status 1356:c2:s1-1356:c1:s1-1"]
         hs.append(History(ops, tags=tags))
     return hs
@@ -433,6 +463,14 @@ def mon_c17(h, obs):
                 elif key in outsider_class and rc.ret != outsider_class[key]:
                     hits.append(Hit(f"C17/reserved-operation-passed-permission-check/{c}.{m}",
                                     f"{c}.{m} about chain {chain}: {tx.signer} ({cls}) was refused with {rc.ret}, an outsider with {outsider_class[key]}: the caller got past the owner check", detail=b.op))
+        # R6: the logout of a service is reserved to the admin of the service's own appchain (the id up to the last colon); a
+        # freeze to governance admins
+        if (c, m) in (("service", "LogoutService"), ("service", "FreezeService")) and tx.args and tx.args[0].startswith("s:") and tx.args[0].count(":") >= 2:
+            chain = tx.args[0][2:].rsplit(":", 1)[0]
+            if chain in owners and rc.ok:
+                allowed = {owners[chain]} if m == "LogoutService" else set(CALLERS.get("governance-admin", []) or ["adm0", "adm1", "adm2", "adm3"])
+                if tx.signer not in allowed:
+                    hits.append(Hit(f"C17/reserved-operation-open-to-others/{c}.{m}", f"{c}.{m} about a service of chain {chain} called by {tx.signer} ({cls}) succeeded; the chain's admin is {owners[chain]}", detail=b.op))
         # R5: an operation reserved to governance admins (or a vote) called by an account that holds an admin role record
         # without being an available admin fails — and in the same way as for an outsider
         # (the set-up that was to take the admin's availability away can itself be refused — the random calls before it may
